@@ -16,7 +16,7 @@ RULE = ("Each case = a corpus of 20-90 documents over a skewed 8-word vocabulary
         "in place, document/field boosts; 4 generated scored query trees (Term, And, Or with 2 and >=3 clauses, AndNot, "
         "AndMaybe, Require, DisjunctionMax, Phrase, ranges, boosts); one weighting (BM25F variants, TF_IDF, Frequency, "
         "PL2, DFree, MultiWeighting, FunctionWeighting). For k in {1,2,3,5,10,|hits|-1} the list [(doc, score)] of "
-        "search(q, limit=k) - plain, with terms=True, with a filter and with a mask - must equal the first k entries of "
+        "search(q, limit=k) - plain, with terms=True, with a filter, with a mask and collapsed on a field (best 1 / 2 per key) - must equal the first k entries of "
         "search(q, limit=None) (descending score, ascending document number on ties; score tolerance 1e-9, boundary "
         "ties broken by document number). Non-trivial = the limited run actually skipped blocks or replaced the matcher "
         "against a positive minimum score and k < number of hits; distinct by SHA-1 of (weighting kind, query shape, k, "
@@ -186,7 +186,9 @@ def run(case, out):
             if len(full) < 2:
                 continue
             variants = [("plain", {}), ("terms", {"terms": True}),
-                        ("filter", {"filter": wq.Term("g", "g1")}), ("mask", {"mask": wq.Term("g", "g2")})]
+                        ("filter", {"filter": wq.Term("g", "g1")}), ("mask", {"mask": wq.Term("g", "g2")}),
+                        ("collapse1", {"collapse": "g", "collapse_limit": 1}),
+                        ("collapse2", {"collapse": "g", "collapse_limit": 2})]
             refs = {}
             for k in sorted(set([1, 2, 3, 5, 10, len(full) - 1])):
                 if k >= ndocs or k < 1:
